@@ -135,7 +135,7 @@ type Sim struct {
 }
 
 func NewSim(t *Tape) *Sim {
-	return &Sim{Tape: t, StepCap: 4000, Horizon: 10 * time.Minute, trace: make([]Step, 0, 256)}
+	return &Sim{Tape: t, StepCap: 4000, Horizon: 10 * time.Minute, trace: make([]Step, 0, 256), start: time.Now()}
 }
 
 func (s *Sim) NewSlot(name string, weight int) *Slot {
